@@ -254,6 +254,49 @@ def tall_sheet(report, folder):
                          "XlsxRowWriter: row 1048577 (a sheet has 1048576 rows) is %s" % outcome)
 
 
+def hidden_sheets(report, folder):
+    """
+    'The sheet that is read is the one the Sheet property requests': the N-th sheet of the workbook, whether it or the sheets
+    before it are visible, hidden or very hidden; a number beyond the last sheet is a data-format error.
+    """
+    import itertools
+    import cutplace
+    import xlsxwriter
+    from cutplace import errors, rowio
+    for count in (2, 3):
+        for states in itertools.product(("visible", "hidden", "veryHidden"), repeat=count):
+            if "visible" not in states:
+                continue  # (a workbook needs a visible sheet)
+            path = os.path.join(folder, "hidden.xlsx")
+            workbook = xlsxwriter.Workbook(path)
+            for number, state in enumerate(states, 1):
+                sheet = workbook.add_worksheet("S%d" % number)
+                sheet.write_string(0, 0, "sheet %d" % number)
+                if state == "hidden":
+                    sheet.hide()
+                elif state == "veryHidden":
+                    sheet.very_hidden()
+            workbook.worksheets()[states.index("visible")].activate()
+            workbook.close()
+            for wanted in range(1, count + 2):
+                report.replayed += 1
+                cid = cutplace.Cid()
+                cid.read("cid", [["D", "Format", "excel"], ["D", "Sheet", str(wanted)], ["F", "note"]])
+                expected = [["sheet %d" % wanted]] if wanted <= count else "DataFormatError"
+                for name, read in (("rowio.excel_rows", lambda: list(rowio.excel_rows(path, wanted))), ("rows()", lambda: list(cutplace.rows(cid, path)))):
+                    try:
+                        got = read()
+                    except errors.DataFormatError:
+                        got = "DataFormatError"
+                    except Exception as error:  # noqa
+                        got = "%s: %s" % (type(error).__name__, error)
+                    if got != expected:
+                        report.violation("c16", {"sheets": list(states), "wanted": wanted}, expected, got,
+                                         "workbook with sheets %s, Sheet %d: %s gives %r but must give %r" % (list(states), wanted, name, got, expected))
+                        return
+    report.notes["hidden_sheets"] = "workbooks of 2 and 3 sheets, every combination of visible / hidden / very hidden, every sheet number"
+
+
 def _short(table):
     return [[cell if len(cell) <= 40 else "%s... (%d characters)" % (cell[:20], len(cell)) for cell in row] for row in table]
 
@@ -354,6 +397,7 @@ def run(tier, report):
         report.notes["expected_counterexamples"] = [{"cfg": "Excel_pinned.cfg", "deviation": "D3 always reads the first sheet"}]
         writer_round_trip(report, folder)
         tall_sheet(report, folder)
+        hidden_sheets(report, folder)
         finite_floats(report, folder)
         if not report.violations:
             for vec in first:
